@@ -1,4 +1,5 @@
 import GrVerif.Proofs.ShapeStream
+import GrVerif.Proofs.IndexPerm
 /-!
 # C03 — every returned segment exposes a well-formed glyph stream   (partial: left-to-right pipeline without bidi/justification)
 
@@ -133,6 +134,27 @@ example : exGids (shape (exFont [32, 25, 49]) [3, 4, 3] 50) = [4] := by decide +
 leaves the reversed stream -/
 example : exGids (shape (exFont [32, 25, 49]) [3, 4, 5, 3] 50 1) = [5, 4] := by decide +kernel
 end examples
+
+/-- **C03, the indices.** For every font whose positioning passes neither insert nor delete (`posNoIDCheck`, a finite check
+on the decoded action code; the loader refuses both opcodes there), every non-empty text and either direction: in the segment
+the modelled pipeline returns, the `index` fields of the slots met on the walk from `first` are 0, 1, …, n−1 in some order
+(`associateChars` numbers the stream, no later opcode writes `m_index`, the garbage collection frees temporary copies only,
+reversals only relink). -/
+theorem indices_are_a_permutation (font : Pass.Font) (text : List Nat) (fuel : Nat) (dir : Nat) (hne : text ≠ [])
+    (hchk : Pass.posNoIDCheck font = true) {c : Ctx} {ci : List Assoc.CI} (e : Pass.shape font text fuel dir = .ok (some (c, ci))) :
+    ∃ l, walk c.seg (l.length + 1) c.seg.first = l ∧ (l.length : Int) = c.seg.numGlyphs ∧
+      (l.map fun j => (c.seg.get j).index).Perm (List.range l.length) := by
+  obtain ⟨l, h1, h2, _, hp⟩ := Pass.shape_index_perm font text fuel dir hne (Pass.posNoID_of_check font hchk) e
+  have := stream_walk h1 h2
+  exact ⟨l, this.1, this.2.2.1, hp⟩
+
+/-- non-vacuity: a substitution pass that inserts a slot in front of every glyph 3 and a positioning pass that only moves the
+cursor (`next; ret_zero`): the check holds, and the five slots carry the indices 0 … 4 -/
+def exFont2 : Pass.Font := { passes := #[exPass [31, 59, 0, 7, 25, 25, 49], exPass [25, 49]], ipos := 1, classes := #[], gattr := #[], gadv := #[], cmap := id }
+example : Pass.posNoIDCheck exFont2 = true := by decide +kernel
+example : (match Pass.shape exFont2 [3, 4, 3] 50 1 with
+    | .ok (some r) => (walk r.1.seg 100 r.1.seg.first).map fun i => (r.1.seg.get i).index
+    | _ => []) = [0, 1, 2, 3, 4] := by decide +kernel
 
 /-- **`Segment::reverseSlots`** (in front of a pass that runs in the other direction, inside `positionSlots`, at the end of
 `finalise`): the reversed stream is a well-formed doubly linked list of the same slots – in an order that is a permutation of
